@@ -224,7 +224,13 @@ func (aux *Aux) collectMethods(meth *slip.Method, key []string, ki int, args sli
 		for _, h := range hier {
 			key[ki] = string(h)
 			if m, has := aux.methods[strings.Join(key, "|")]; has {
-				meth.Combinations = append(meth.Combinations, m.Combinations...) // should only be one
+				// The combinations are copied as the cached method is
+				// called after the lock is released and defmethod and
+				// remove-method change the combinations in place.
+				for _, c := range m.Combinations { // should only be one
+					cc := *c
+					meth.Combinations = append(meth.Combinations, &cc)
+				}
 			}
 		}
 	} else {
